@@ -247,6 +247,7 @@ static int sl_unlock(SimLock *l)
 	shim_call(S_UNLOCK);
 	if (l->writer) l->writer = 0;
 	else if (l->readers > 0) l->readers--;
+	if (g_cfg.extra_yields && in_task()) yield(Y_CALL, S_UNLOCK);
 	return 0;
 }
 
@@ -395,6 +396,7 @@ extern "C" void *simk_memcpy(void *d, const void *s, size_t n)
 extern "C" long simk_random(void)
 {
 	if (!in_task()) return random();
+	if (g_cfg.extra_yields) yield(Y_CALL, S_UNLOCK);
 	// bijection on 31 bits applied to a counter: never repeats within 2^31 calls
 	uint32_t x = (g_rand_ctr++ + g_rand_key) & 0x7fffffff;
 	x ^= x >> 15; x = (x * 0x2c1b3c6dU) & 0x7fffffff;
